@@ -156,6 +156,100 @@ func c07HeaderProgram(h c07Header, guardOn int) (*Program, []byte) {
 	return p, []byte("[1,2]")
 }
 
+// ---- else-if chains whose conditions have effects: every condition is evaluated at most once per pass, in order
+
+func c07ChainPrograms() []*Program {
+	var out []*Program
+	thr := []string{"0", "1", "2", "3", "100"}
+	mk := func(ts []string, braceless bool) *Program {
+		// if (++cnt > t0) {..} else if (++cnt > t1) {..} ... else {..}
+		var build func(i int) Stmt
+		build = func(i int) Stmt {
+			if i == len(ts) {
+				return Blk(Pr(S("else"), V("cnt")))
+			}
+			cond := Bin(">", &Paren{X: Asg(V("cnt"), Bin("+", V("cnt"), N("1")))}, N(ts[i]))
+			var then Stmt = Blk(Pr(S("body"+strconv.Itoa(i)), V("cnt")))
+			if braceless && i%2 == 0 {
+				then = Pr(S("body"+strconv.Itoa(i)), V("cnt"))
+			}
+			return &If{C: cond, Then: then, Else: build(i + 1)}
+		}
+		body := []Stmt{asg(V("cnt"), N("0")), Pr(S("pass")), build(0), Pr(S("after"), V("cnt"))}
+		loop := &For{Pre: Asg(V("round"), N("0")), C: Bin("<", V("round"), N("2")), Post: &IncDec{Op: "++", X: V("round")}, Body: &Block{Stmts: body}}
+		return &Program{Items: []any{&Rule{Kind: "BEGIN", Body: Blk(loop, Pr(S("end")))}}}
+	}
+	for _, a := range thr {
+		for _, b := range thr {
+			out = append(out, mk([]string{a, b}, false))
+			for _, cc := range thr {
+				out = append(out, mk([]string{a, b, cc}, (len(out)%2 == 0)))
+			}
+		}
+	}
+	for _, ts := range [][]string{{"100", "100", "100", "100"}, {"4", "4", "4", "4"}, {"1", "2", "3", "4"}, {"4", "3", "2", "1"}, {"100", "4", "100", "5"}, {"3", "3", "3", "3", "3"}, {"5", "5", "5", "5", "5"}} {
+		out = append(out, mk(ts, false), mk(ts, true))
+	}
+	return out
+}
+
+// ---- loops whose bound is a variable that the body, the post-expression or a called function changes:
+// the condition is evaluated afresh before every round
+
+func c07BoundPrograms() []*Program {
+	var out []*Program
+	type ch struct{ name string; body, post Stmt; fn bool }
+	changes := []struct {
+		name string
+		body []Stmt
+		post Expr
+	}{
+		{"none", nil, nil},
+		{"bound-- in body", []Stmt{ES(&IncDec{Op: "--", X: V("bound")})}, nil},
+		{"bound++ on round 1 and 2", []Stmt{&If{C: Bin("<", V("k"), N("2")), Then: Blk(ES(&IncDec{Op: "++", X: V("bound")}))}}, nil},
+		{"bound = bound - 2 in body", []Stmt{asg(V("bound"), Bin("-", V("bound"), N("2")))}, nil},
+		{"bound = 0 on round 1", []Stmt{&If{C: Bin("==", V("k"), N("1")), Then: Blk(asg(V("bound"), N("0")))}}, nil},
+		{"bound changed by a called function", []Stmt{ES(CallE(V("shrink")))}, nil},
+		{"bound-- in the post-expression", nil, &IncDec{Op: "--", X: V("bound")}},
+		{"work list: bound grows while k < 3", []Stmt{&If{C: Bin("<", V("k"), N("3")), Then: Blk(asg(V("bound"), Bin("+", V("bound"), N("1"))))}}, nil},
+	}
+	for _, cmp := range []string{"<", "<=", "!=", ">", ">="} {
+		for _, chg := range changes {
+			for _, form := range []string{"for", "while", "for-bound-left"} {
+				start, bnd, step := "0", "5", "++"
+				if cmp == ">" || cmp == ">=" {
+					continue // written through the mirrored forms below
+				}
+				var cond Expr = Bin(cmp, V("k"), V("bound"))
+				if form == "for-bound-left" {
+					mirror := map[string]string{"<": ">", "<=": ">=", "!=": "!="}[cmp]
+					cond = Bin(mirror, V("bound"), V("k"))
+				}
+				guard := &If{C: Bin(">", &Paren{X: Asg(V("guard"), Bin("+", V("guard"), N("1")))}, N("12")), Then: Blk(Pr(S("guard")), &Break{})}
+				body := append([]Stmt{guard, Pr(S("round"), V("k"), V("bound"))}, chg.body...)
+				var loop Stmt
+				if form == "while" {
+					b := append(append([]Stmt{}, body...), ES(&IncDec{Op: step, X: V("k")}))
+					if chg.post != nil {
+						b = append(b, ES(chg.post))
+					}
+					loop = Blk(asg(V("k"), N(start)), &While{C: cond, Body: &Block{Stmts: b}})
+				} else {
+					var post Expr = &IncDec{Op: step, X: V("k")}
+					if chg.post != nil {
+						post = Arr(&IncDec{Op: step, X: V("k")}, chg.post)
+					}
+					loop = &For{Pre: Asg(V("k"), N(start)), C: cond, Post: post, Body: &Block{Stmts: body}}
+				}
+				fn := &Func{Name: "shrink", Body: Blk(asg(V("bound"), Bin("-", V("bound"), N("1"))), &Return{X: V("bound")})}
+				p := &Program{Items: []any{fn, &Rule{Kind: "BEGIN", Body: Blk(asg(V("bound"), N(bnd)), asg(V("guard"), N("0")), loop, Pr(S("after"), V("k"), V("bound")))}}}
+				out = append(out, p)
+			}
+		}
+	}
+	return out
+}
+
 // ---- long histories: the signals work the same on the 100000th round as on the first (law on the implementation alone)
 
 type c07Long struct{ name, prog, input, want string }
@@ -325,8 +419,11 @@ func c07ObjOrder(c *Case) {
 	c.Held()
 }
 
+var c07Chains = c07ChainPrograms()
+var c07Bounds = c07BoundPrograms()
+
 func c07Cases(tier string) int {
-	n := len(c07Matrix())*3 + 300 + len(c07Headers())*3 + len(c07Longs())
+	n := len(c07Matrix())*3 + 300 + len(c07Headers())*3 + len(c07Longs()) + len(c07Chains) + len(c07Bounds)
 	if tier == "thorough" {
 		return n + 2000000
 	}
@@ -362,6 +459,16 @@ func c07Run(c *Case) {
 		}
 	case i < len(mat)*3+300+len(c07Headers())*3+len(c07Longs()):
 		c07LongRun(c, c07Longs()[i-len(mat)*3-300-len(c07Headers())*3])
+	case i < len(mat)*3+300+len(c07Headers())*3+len(c07Longs())+len(c07Chains):
+		k := i - (len(mat)*3 + 300 + len(c07Headers())*3 + len(c07Longs()))
+		c.NonTrivial(fmt.Sprintf("chain:%d", k))
+		c.Count("else_if_chains_with_effects")
+		m2(c, &M2Case{Prog: c07Chains[k], Desc: "else-if chain whose conditions have effects"})
+	case i < len(mat)*3+300+len(c07Headers())*3+len(c07Longs())+len(c07Chains)+len(c07Bounds):
+		k := i - (len(mat)*3 + 300 + len(c07Headers())*3 + len(c07Longs()) + len(c07Chains))
+		c.NonTrivial(fmt.Sprintf("bound:%d", k))
+		c.Count("loops_with_moving_bound")
+		m2(c, &M2Case{Prog: c07Bounds[k], Desc: "loop whose bound variable changes while it runs"})
 	default:
 		g := newStructGen(c.Rng, sgOpts{MaxDepth: 2 + c.Rng.IntN(4), Funcs: c.Rng.IntN(2) == 0, Signals: true, Exit: true, MultiRule: true, NonASCII: true})
 		p, doc := g.Program()
@@ -391,7 +498,7 @@ func c07Run(c *Case) {
 			}
 			c.Max("max_trace_lines", lines)
 		}
-		if i == len(mat)*3+300+len(c07Headers())*3+len(c07Longs()) {
+		if i == len(mat)*3+300+len(c07Headers())*3+len(c07Longs())+len(c07Chains)+len(c07Bounds) {
 			c.Sample(map[string]any{"structured_program": text, "input": string(doc)})
 		}
 	}
@@ -400,7 +507,7 @@ func c07Run(c *Case) {
 func init() {
 	register(&Prop{
 		ID: "C07", Level: "exploration",
-		Rule:          "enumerated: 5 signals (break continue return next exit) x 5 loop kinds x {inner, outer loop of a 2-nest} x {before, after the trace print} x 3 guard positions, inside a function called from the first of two pattern rules over a 2-element input; 300 object-order cases (2-12 keys: every key once, identical order in two iterations and 8 runs); 5 signals raised from inside a loop header (for initialiser / condition / post-expression, while condition, for-in iterable, through a match block) x 3 enclosing loop kinds x 3 guard positions: the header is not inside its own loop; 11 long histories (70000-150000 rounds of continue / break / return / next, also from match blocks and from a called function, results known in closed form): the hundred-thousandth signal works like the first; sampled: structured programs (if/else incl. brace-less and dangling else, while, 3-clause for, for-in over arrays/strings/objects, nesting <= 5, guarded signals, functions) whose stdout trace is compared line by line with the reference model. Non-trivial = trace of >= 5 lines and at least one signal executed (counted in the model's execution); distinct by program text.",
+		Rule:          "enumerated: 5 signals (break continue return next exit) x 5 loop kinds x {inner, outer loop of a 2-nest} x {before, after the trace print} x 3 guard positions, inside a function called from the first of two pattern rules over a 2-element input; 300 object-order cases (2-12 keys: every key once, identical order in two iterations and 8 runs); 5 signals raised from inside a loop header (for initialiser / condition / post-expression, while condition, for-in iterable, through a match block) x 3 enclosing loop kinds x 3 guard positions: the header is not inside its own loop; 11 long histories (70000-150000 rounds of continue / break / return / next, also from match blocks and from a called function, results known in closed form): the hundred-thousandth signal works like the first; 164 else-if chains of 2-5 conditions that count their own evaluations (every combination of thresholds 0/1/2/3/100, with and without braces, two passes): each condition evaluated at most once per pass, in order; 72 loops (for, while, bound on the left) whose bound is a variable changed by the body, the post-expression or a called function (shrinking, growing, zeroed): the condition is evaluated afresh before every round; sampled: structured programs (if/else incl. brace-less and dangling else, while, 3-clause for, for-in over arrays/strings/objects, nesting <= 5, guarded signals, functions) whose stdout trace is compared line by line with the reference model. Non-trivial = trace of >= 5 lines and at least one signal executed (counted in the model's execution); distinct by program text.",
 		NumCases:      c07Cases,
 		Run:           c07Run,
 		MinConclusive: func(tier string) int { return 3000 },
